@@ -2,10 +2,13 @@
 from pipeline import run_pipeline
 
 TIERS = {
-    "quick": dict(mc=[], replay_limit=6000, random=dict(runs=240, events=160)),
-    "thorough": dict(mc=[], replay_limit=100000, random=dict(runs=3000, events=300)),
+    "quick": dict(mc=[("MC_RtpsWriter_q_rel.cfg", 8), ("MC_RtpsWriter_q_vol.cfg", 8), ("MC_RtpsWriter_q_all.cfg", 8), ("MC_RtpsWriter_q_be.cfg", 8)],
+                  replay_limit=8000, random=dict(runs=240, events=160)),
+    "thorough": dict(mc=[("MC_RtpsWriter_t_rel.cfg", 12), ("MC_RtpsWriter_t_vol.cfg", 12), ("MC_RtpsWriter_t_three.cfg", 12), ("MC_RtpsWriter_t_all.cfg", 12), ("MC_RtpsWriter_q_be.cfg", 8)],
+                     replay_limit=120000, random=dict(runs=3000, events=300)),
 }
 ASSUME = [
+    "state space bounded by the constants in spec/MC_RtpsWriter_*.cfg; the model covers unfragmented samples, fragmented ones only in the random runs",
     "timed events (heartbeat, repair, cache cleaning) are fired by the harness through cfg-gated wrappers instead of the wall-clock timer",
     "fake matched readers have one distinct unicast locator each and no multicast locator",
     "a reader does not change its reliability while matched; ACKNACK bases may be arbitrary",
